@@ -47,7 +47,10 @@ def random_droplet(rng: random.Random, lay: dict, radius0: bool = True) -> dict:
 
 def random_time_list(rng: random.Random, n: int) -> list:
     style = rng.choice(["range", "int", "float", "neg", "irregular", "np", "decimal", "bigint",
-                        "cross_zero", "cross_zero", "offset", "tiny", "dup", "unsorted", "equal"])
+                        "cross_zero", "cross_zero", "offset", "tiny", "dup", "unsorted", "equal", "huge"])
+    if style == "huge":  # whole-number floats beyond the range of 64-bit integers; tiny ones too
+        t0 = rng.choice([1.5e19, 1e21, 2.0 ** 63, 1e300, -1e25])
+        return [t0 * (i + 1) if abs(t0) < 1e299 else t0 * (1 + i / 8) for i in range(n)]
     if style in ("dup", "unsorted", "equal"):
         # legal time lists of stored collections that are not strictly increasing: repeated
         # stamps (continued runs), restarts / arbitrary order, all frames at one time
